@@ -12,7 +12,7 @@ import models
 import tflsum
 import vlib
 
-FAMS = ["conv_chain", "conv_chain_big", "single", "diamond", "mixed_cpu", "lut_heavy", "conv_chain_big", "single"]
+FAMS = ["conv_chain", "conv_chain_big", "single", "diamond", "mixed_cpu", "lut_heavy", "conv_chain_big", "single", "lut_mixed"]
 ELEM = {"int8": 1, "uint8": 1, "int16": 2, "int32": 4, "float32": 4, "int64": 8, "bool": 1, "float16": 2}
 
 
